@@ -169,7 +169,7 @@ class AsyncClient(base_client.BaseClient):
                                       run_async=False)
             if self.current_transport == 'websocket':
                 await self.ws.close()
-            if not abort:
+            if not abort and self.read_loop_task:
                 await self.read_loop_task
             self.state = 'disconnected'
             try:
